@@ -77,6 +77,11 @@ static void check_spanner(const symx::Case &c, const Instance &I, const orc::Top
         symx::prove(!none, "C15:dropped-edge-has-path<=2k-1-of-no-heavier-retained-edges", "edge " + std::to_string(i));
     }
     symx::note("retained", std::to_string(rt.m()));
+    {
+        std::string rs = "[";
+        for (size_t j = 0; j < rmap.size(); j++) rs += (j ? "," : "") + std::to_string(rmap[j]);
+        symx::note("retained_set", rs + "]");
+    }
 }
 
 static void body(const symx::Case &c, const std::string &line) {
